@@ -172,6 +172,8 @@ class V3(object):
         ctx.data["self"] = o
         ctx.data["v3"] = self
         ctx.data["frozen_maps"] = []
+        o.assumed_state = True
+        o.assumed_fields = set(o.fields)
         return o
 
     def mscope_str(self):
